@@ -361,7 +361,7 @@ def c11(tier):
                          stubs={"h3Index": ["isPentagon"], "vertex": ["directionForVertexNum", "vertexNumForDirection"], "algos": ["h3NeighborRotations", "directionForNeighbor"]},
                          bound="any cell word, any component values"))
     js += with_witness(J("glue_isValidVertex", "C11_glue.c", ["-DGLUE_VALID"], unwind=17, est=5, stubs={"vertex": ["cellToVertex"]}, bound="all 2^64 words x any canonical index / error"))
-    js += with_witness(J("glue_cellToVertexes", "C11_glue.c", ["-DGLUE_VERTEXES"], unwind=8, est=5, stubs={"vertex": ["cellToVertex"], "h3Index": ["isPentagon"]}, bound="any cell word, any per-vertex results"))
+    js += with_witness(J("glue_cellToVertexes", "C11_glue.c", ["-DGLUE_VERTEXES"], unwind=10, est=5, stubs={"vertex": ["cellToVertex"], "h3Index": ["isPentagon"]}, bound="any cell word, any per-vertex results"))
     for r in range(1, 16):
         t = "quick" if r <= 8 or r == 15 else "thorough"
         j = J("centremin_r%d" % r, "C11_comp.c", ["-DCENTREMIN", "-DRES=%d" % r], unwind=r + 2, est=10 + 5 * r, tier=t, bound="all centre children of res %d x directions" % r)
@@ -454,7 +454,8 @@ def c17(tier):
             j = al("disk%s_r%d" % ("dist" if wd else "", r), ["-DDISK", "-DRES=%d" % r] + (["-DWITHDIST"] if wd else []), unwind=max(r + 2, 4), us=DL, est=200 + 200 * r, mem="M", tier=t, timeout=3000, bound="every cell of res %d, k=1, every failure schedule" % r)
             js += with_witness(j, tier=t) if (r == 0 and wd == 0) else [j]
     PS = {"h3Index": ["cellToLatLng", "cellToBoundary", "latLngToCell"], "polyfill": ["cellToBBox"], "polygon": ["pointInsidePolygon", "cellBoundaryInsidePolygon", "cellBoundaryCrossesPolygon"]}
-    PL = {"iterStepPolygonCompact.0": 4, "nextCell.0": 4, "polygonToCellsExperimental.0": 4, "maxPolygonToCellsSizeExperimental.0": 4, "maxPolygonToCellsSizeExperimental.1": 4, "bboxesFromGeoPolygon.0": 3, "bboxFromGeoLoop.0": 5, "iterStepChild.0": 5, "harness.0": 4, "setH3Index.0": 4}
-    js += with_witness(al("polyexp", ["-DPOLYEXP"], unwind=5, us=PL, stubs=PS, est=200, mem="M", timeout=2400, bound="triangle + <=1 hole, res <= 2 (incl. negative), any flags, capacity 2, <= 3 iterator steps"))
-    js += with_witness(al("polymax", ["-DPOLYMAX"], unwind=5, us=PL, stubs=PS, est=200, mem="M", timeout=2400, bound="triangle + <=1 hole, res <= 2 (incl. negative), any flags, <= 3 iterator steps"))
+    PL = {"iterStepPolygonCompact.0": 5, "nextCell.0": 4, "polygonToCellsExperimental.0": 4, "maxPolygonToCellsSizeExperimental.0": 4, "maxPolygonToCellsSizeExperimental.1": 5, "bboxesFromGeoPolygon.0": 3, "bboxFromGeoLoop.0": 5, "iterStepChild.0": 5, "harness.0": 4, "setH3Index.0": 4}
+    for nh in (0, 1):
+      js += with_witness(al("polyexp_h%d" % nh, ["-DPOLYEXP", "-DNH=%d" % nh], unwind=5, us=PL, stubs=PS, est=200, mem="M", timeout=2400, bound="triangle + <=1 hole, res <= 2 (incl. negative), any flags, capacity 2, <= 3 iterator steps"))
+      js += with_witness(al("polymax_h%d" % nh, ["-DPOLYMAX", "-DNH=%d" % nh], unwind=5, us=PL, stubs=PS, est=400, mem="L", timeout=2400, tier="thorough", bound="triangle + <=1 hole, res <= 2 (incl. negative), any flags, <= 3 iterator steps"))
     return js
